@@ -218,7 +218,9 @@ func (h *harness) runDeferred(ctx *bex.Ctx) {
 	ctx.Space("deferred-lazy-stages")
 	stages := []string{"map(x->x*2+1)", "accept(x->x>1)", "combine((p,q)->p*3+q)", "combine3((p,q,r)->p*5+q*3+r)", "combineN(2,w->w[0]*7+w[1])",
 		"iir(x->x+1,(x,l)->x+l*2)", "iirCombine(x->x+2,(p,q,l)->p+q*2+l*3)", "number((i,v)->i*1000+v)", "compact((p,q)->p=q)", "cross([10,20],(p,q)->p*100+q)",
-		"merge([2,4],(p,q)->p<q)", "fsm((s,x)->{state:s.state+x}).map(m->m.state)", "top(4)", "skip(1)", "movingWindow(x->x).map(w->w.size())", "order(x->0-x)"}
+		"merge([2,4],(p,q)->p<q)", "fsm((s,x)->{state:s.state+x}).map(m->m.state)", "top(4)", "skip(1)", "movingWindow(x->x).map(w->w.size())", "order(x->0-x)",
+		// a closure-free stage over a stage that runs its closure on the stack it is handed
+		"number((i,v)->i*1000+v).top(4)", "number((i,v)->i*1000+v).skip(1)", "combine((p,q)->p*3+q).top(3).skip(1)", "iir(x->x+1,(x,l)->x+l*2).top(4)", "compact((p,q)->p=q).skip(1)"}
 	consumers := []string{".size()", ".sum()", ".string()", ".first()", "[1]", ".reduce((p,q)->p*31+q)", ".last()"}
 	contexts := []string{
 		"let c=R.STAGE; let u=a+1; let v=a+2; let w=a+3; let n=c.CONS; [u,v,w,n]",
